@@ -18,7 +18,7 @@ from ..normalise import snapshot, clone
 
 CHECK = "C16"
 RULE = (
-    "parsers: all ordered pairs and triples over 14 representative texts "
+    "parsers: all ordered pairs and triples over 16 representative texts "
     "(well-formed, with empty values, failing in the lexer, failing deep in a "
     "block, without END, very short, different line counts ...) x 5 parser "
     "configurations, plus random histories of up to 12 texts; encoders: "
@@ -42,6 +42,8 @@ TEXTS = [
     "a = 12:00:60\nb = 16#FF#\n",
     "/* only a comment */\n",
     "k = \"multi\n line\"\nj =\n\n\nq =\nEND\n",
+    "a =\nb = 2\nOBJECT = o\n c =\n",                 # empty values, then fatal
+    "x =\nGROUP = g\n y =\nEND_GROUP = other\n",       # empty values, then fatal
 ]
 PARSERS = ("PVL", "ODL", "PDS3", "ISIS", "default")
 
@@ -161,6 +163,63 @@ def encoder_histories(rec, hb, pvl, tier, seed, part, nparts):
                         break
 
 
+def shared_object_histories(rec, hb, pvl, tier, seed, part, nparts):
+    """The same container OBJECTS (not clones) handed to one encoder instance
+    in several modules: identity-keyed memory must not change the output."""
+    col = pvl.collections
+
+    def build():
+        g = col.PVLGroup([("a", 1), ("b", "two words")])
+        g2 = col.PVLGroup([("c", 2)])
+        o = col.PVLObject([("x", 1)])
+        mods = [
+            col.PVLModule([("settings", g)]),
+            col.PVLModule([("settings", g), ("obj", o)]),
+            col.PVLModule([("k", 1), ("settings", g), ("other", g2)]),
+            col.PVLModule([("other", g2), ("obj", o), ("settings", g)]),
+            col.PVLModule([("obj", o)]),
+        ]
+        return mods
+
+    import itertools as it
+    n = 0
+    for dialect in DIALECTS:
+        for h in [h for r in (2, 3) for h in it.permutations(range(5), r)]:
+            n += 1
+            if n % nparts != part:
+                continue
+            hb.beat()
+            mods = build()
+            inst = make_encoder(pvl, dialect, {})
+            rec.case(("encoder-shared", dialect, h), True)
+            for step, mi in enumerate(h):
+                try:
+                    got = ("ok", inst.encode(mods[mi]))
+                except Exception as e:
+                    got = ("exc", type(e).__name__)
+                # fresh encoder on freshly built, identical objects that went
+                # through the same earlier dumps (the PDS3 encoder may convert
+                # groups of the caller's module in place)
+                fmods = build()
+                for prev in h[:step]:
+                    try:
+                        make_encoder(pvl, dialect, {}).encode(fmods[prev])
+                    except Exception:
+                        pass
+                try:
+                    want = ("ok", make_encoder(pvl, dialect, {}).encode(fmods[mi]))
+                except Exception as e:
+                    want = ("exc", type(e).__name__)
+                rec.count("shared_object_steps_compared")
+                if got != want:
+                    rec.violation(
+                        CHECK, dialect, "reused-encoder-differs-from-fresh",
+                        {"what": "shared-container-objects"},
+                        {"dialect": dialect, "history": list(h[:step + 1])},
+                        f"step {step}: {got!r:.200} vs {want!r:.200}")
+                    break
+
+
 DEC_STRINGS = ["1", "1.5", "abc", '"q s"', "'x'", "2001-01-01", "12:00:60", "16#FF#",
                "2#101#", "NULL", "true", "END", "12:00+05", "", "a b", "1e5",
                "2001-001T12:00:00.5Z", "\"a-\n  b\""]
@@ -261,6 +320,7 @@ def shard(i, n, tier, seed, rec, hb):
     pvl = common.import_pvl()
     parser_histories(rec, hb, pvl, tier, seed, i, n)
     encoder_histories(rec, hb, pvl, tier, seed, i, n)
+    shared_object_histories(rec, hb, pvl, tier, seed, i, n)
     decoder_histories(rec, hb, pvl, tier, seed, i, n)
     if i == 0:
         shared_tables(rec, hb, pvl, tier, seed)
@@ -274,7 +334,8 @@ def finish_kwargs(rec, tier):
                                   "and over the module set (encoders; every "
                                   "third history in the quick tier)"},
         required_counters=("parser_steps_compared", "encoder_steps_compared",
-                           "decoder_steps_compared", "shared_table_steps_compared",
+                           "decoder_steps_compared", "shared_object_steps_compared",
+                           "shared_table_steps_compared",
                            "shared_writer_steps_compared"))
 
 
